@@ -88,6 +88,10 @@ def step (st : St) (ws : List String) (impl : String) : St × Ans :=
       | some r, some t0 => ({ t0 := t0, retain := configRetain r, started := true }, { m := "ok" })
       | _, _ => (st, bad)
   | ["sleep", _] => (st, { m := "ok" })
+  | ["incarnations", _, _] =>
+      -- ids are store keys: successive incarnations of the broker never create the same id (the per
+      -- process nonce of `NewID`), else a later store overwrites an acknowledged message
+      (st, { m := "distinct" })
   | "run" :: how :: _k :: _d :: _w :: _fill :: ms =>
       if !st.started then (st, bad) else
       match ms.mapM (parseMsg st.t0) with
